@@ -39,21 +39,25 @@ def cases(draw, tier):
         cfg["IDX"] = {"class": "IndexMarket", "tickSize": 1.0, "marketPrice": 100.0, "markets": names[:2]}
         cfg["simulation"]["markets"].insert(2, "IDX")
     r = draw(st.sampled_from([0.005, 0.02, 0.05, 0.1, 0.3, 0.5]))
+    traded = list(cfg["simulation"]["markets"])  # (agents trade the index market as well when there is one)
     offs = [-6, -2, -1, 0, 1, 2, 6]
     fracs = [-0.7, -0.4, -0.12, -0.06, -0.03, -0.011, -0.004, 0.004, 0.011, 0.03, 0.06, 0.12, 0.4, 0.7]
     spec = spec_strategy(offs=offs, volumes=(1, 3), ttls=(None, 2, 5), own_cancel=False, rel_fracs=fracs, edge_rates=[r, -r])
-    cfg["A0"] = {"class": "VScriptedAgent", "numAgents": draw(st.integers(2, 5)), "markets": list(names), "assetVolume": 10, "cashAmount": 1000,
+    cfg["A0"] = {"class": "VScriptedAgent", "numAgents": draw(st.integers(2, 5)), "markets": traded, "assetVolume": 10, "cashAmount": 1000,
                  "scripts": draw(st.lists(program_strategy(spec, max_actions=5, decline_weight=0), min_size=1, max_size=3))}
     if draw(st.booleans()):
-        cfg["H0"] = {"class": "VScriptedHFT", "numAgents": 1, "markets": list(names), "assetVolume": 10, "cashAmount": 1000,
+        cfg["H0"] = {"class": "VScriptedHFT", "numAgents": 1, "markets": traded, "assetVolume": 10, "cashAmount": 1000,
                      "scripts": [draw(program_strategy(spec, max_actions=3))]}
         cfg["simulation"]["agents"].append("H0")
-    k = draw(st.integers(1, nm))
-    targets = draw(st.permutations(names))[:k]
+    pool = list(names) + (["IDX"] if "IDX" in cfg else [])  # (an index market is a market: it can be a target too)
+    k = draw(st.integers(1, len(pool)))
+    targets = draw(st.permutations(pool))[:k]
     cfg["PL"] = {"class": "PriceLimitRule", "targetMarkets": list(targets), "triggerChangeRate": r,
                  "enabled": draw(st.sampled_from([True, True, True, True, False]))}
     if draw(st.integers(0, 3)) == 0:
         cfg["PL"]["referenceMarket"] = draw(st.sampled_from(names))  # obsolete key, accepted with a warning: it changes nothing
+    if draw(st.integers(0, 3)) == 0:
+        cfg["PL"]["class"] = "VSubPriceLimitRule"  # a user subclass that inherits every handler
     via_templates(draw, cfg, "PL")
     rest = [n for n in names if n not in targets]
     second = bool(rest) and draw(st.booleans())
